@@ -3,9 +3,9 @@ import engine_common as ec
 import engine_plugin as ep
 
 ID = "C15"
-LEAN_MODULES = ["HgVerif.Props.C15", "HgVerif.Model.Engine", "HgVerif.Model.Extracted"]
+LEAN_MODULES = ["HgVerif.Props.C15", "HgVerif.Props.C02Fail", "HgVerif.Model.Engine", "HgVerif.Model.Extracted"]
 THEOREMS = ["HgVerif.Tie.tie_resumeChecksFailed", "HgVerif.Sched.failed_cycle_restarts", "HgVerif.Sched.stale_cursor_skips_prefix",
-            "HgVerif.Sched.fresh_cycle_scans_all", "HgVerif.Sched.fresh_when_cursor_zero", "HgVerif.Sched.stale_cursor_witness"]
+            "HgVerif.Sched.fresh_cycle_scans_all", "HgVerif.Sched.armed_wakeup_survives_failure", "HgVerif.Tie.tie_failKeepsWakeups", "HgVerif.Sched.fresh_when_cursor_zero", "HgVerif.Sched.stale_cursor_witness"]
 CXX_TARGETS = ["hgv_engine"]
 USES_EXTRACT = True
 RULE = ("generated programs with a capturing node (exception_time_series) or a try_except-wrapped chain sub-graph whose "
@@ -29,6 +29,7 @@ def streams(rng, tier, seed):
     n = 120 if tier == "quick" else 3000
     progs = [ec.gen_try(rng, "try" if i % 3 else "errts") for i in range(n)]
     progs += [ec.gen_sched_capture(rng) for _ in range(n // 2)]     # capturing nodes that own a scheduler
+    progs += [ec.gen_try_sched(rng) for _ in range(n // 2)]         # wake-ups pending beside a failing node in a wrapped sub-graph
     return [ec.engine_stream("engine-capture", progs)]
 
 
